@@ -299,3 +299,50 @@ def h_paths(n0: int, n1: int, n2: int, n3: int, n4: int, q0: int, q1: int, q2: i
     if snap(root) != before:
         return "a query modified the tree"
     return ""
+
+
+def h_shift_long(i: int, j: int, right: bool, first: bool, sib: bool) -> str:
+    """
+    pre: 0 <= i < j <= 11
+    post: _ == ""
+    """
+    # a LONG child list (12) with exactly two same-named children at symbolic positions i < j; one of them is shifted
+    fresh()
+    n = 12
+    ci, cj = -1, -1
+    for k in range(n):
+        if i == k:
+            ci = k
+        if j == k:
+            cj = k
+    P = Node("P", id="P")
+    kids = []
+    for k in range(n):
+        c = Node("a" if k in (ci, cj) else "b%d" % k, id="c%d" % k)
+        P.add_child(c)
+        kids.append(c)
+    model = list(kids)
+    which = ci if first else cj
+    c = kids[which]
+    tgt = None
+    if sib:
+        other = cj if first else ci
+        if (right and other > which) or ((not right) and other < which):
+            tgt = other
+    else:
+        tgt = which + 1 if right else which - 1
+        if not (0 <= tgt < n):
+            tgt = None
+    if tgt is not None:
+        model[which], model[tgt] = model[tgt], model[which]
+    _queries(P, list(kids), "before the edit")
+    try:
+        r = P.shift(c, Shift.RIGHT if right else Shift.LEFT, sib)
+    except Exception as e:
+        return "shift raised %s" % type(e).__name__
+    if [x.id for x in P.children] != [x.id for x in model]:
+        return "shift(child %d, %s, sib=%r) with same-named sibling at %d: children %r, model says %r" % (
+            which, "RIGHT" if right else "LEFT", sib, cj if first else ci, [x.id for x in P.children], [x.id for x in model])
+    if r != P.children.index(c):
+        return "shift returned %r, the child is at %d" % (r, P.children.index(c))
+    return _queries(P, model, "after the shift")
